@@ -75,6 +75,20 @@ func (c *Chooser) Chance(pct int) bool {
 	return c.Choose(100) >= 100-pct
 }
 
+// Enum returns v in exploration (an enumerated, not drawn, decision) and the
+// recorded value in replay; either way it is part of the trace.
+func (c *Chooser) Enum(n int, v int) int {
+	if c.isRep {
+		return c.Choose(n)
+	}
+	if v >= n {
+		v = n - 1
+	}
+	c.pos++
+	c.Rec = append(c.Rec, uint32(v))
+	return v
+}
+
 // Pick returns an index into a list of n options, 0 being the plainest.
 func (c *Chooser) Pick(n int) int { return c.Choose(n) }
 
@@ -137,6 +151,7 @@ type Sim struct {
 	Ch *Chooser
 
 	MaxSteps int
+	RunIndex int
 	Horizon  time.Duration
 	Verbose  bool // keep a human-readable trace
 
